@@ -361,6 +361,6 @@ func init() {
 			}
 			return 90 * time.Second
 		},
-		Units:     units,
+		Units: units,
 	})
 }
